@@ -293,7 +293,7 @@ def run(facts, tr, rep):
                            "the store's TTL comes from the configured ttl on this construction path" if okt else
                            "on one construction path the store's TTL is %s instead of the configured ttl: entries of a cache built "
                            "that way never expire (or expire at the wrong age)" % show(lf)[:60])
-        rep.floor("C10.store-ttl-origins", nttl, 2)
+        rep.floor("C10.store-ttl-origins", nttl, 1)
         # the store is built from the configuration at every construction site: each argument of the store's constructor
         # reads a configuration field (or is the caller's own argument, for a public constructor), and the construction
         # sites agree argument by argument on which field that is (sibling agreement: the per-service store, the shared
@@ -543,6 +543,22 @@ def run(facts, tr, rep):
                         me = ("call", mb.crate.name, mb.def_, real.bb)
                         for bb in range(gm.n):
                             sw = gm.switch(bb)
+                            if sw is not None and sw.kind == "bool":
+                                # `let v = map.remove(k); if v.is_some() { queue.retain(..) }`
+                                nd = peel(tr.expand(tr.operand(mb, sw.cond, (bb, len(gm.stmts(bb)))), upvars=True))
+                                neg = False
+                                while nd[0] == "unop" and nd[1] == "Not":
+                                    nd, neg = peel(nd[2]), not neg
+                                if nd[0] == "call" and tr.call_of(nd).name in ("is_some", "is_none") and tr.call_of(nd).args:
+                                    cc_ = tr.call_of(nd)
+                                    arg = peel(tr.expand(tr.operand(cc_.g.b, cc_.args[0], cc_.loc), upvars=True))
+                                    while arg[0] in ("ref", "deref"):
+                                        arg = peel(arg[1])
+                                    if arg == me or any(peel(x) == me for x in leaves(arg)):
+                                        none_lab = "false" if (cc_.name == "is_some") != neg else "true"
+                                        if sw.variants.get(none_lab) is not None:
+                                            nothing.append((bb, sw.variants[none_lab]))
+                                continue
                             if sw is None or sw.kind != "enum" or not ({"None", "Break"} & set(sw.variants)):
                                 continue
                             nd = peel(tr.expand(tr.place(mb, sw.place, sw.defloc), upvars=True))
